@@ -44,4 +44,7 @@ Definition x_seek := seek.
 (* release paths *)
 Definition x_key_free_aesni := run_free_calls alloc_expr_key_aesni free_calls_key_aesni.
 Definition x_key_free_sw := run_free_calls alloc_expr_key_sw free_calls_key_sw.
+(* the software tail of crypto_aes_key_free as compiled with CPUSUPPORT_X86_AESNI (an OpenSSL key object
+   freed by the AES-NI build: CPU without AES-NI or failed self-test) *)
+Definition x_key_free_sw_ni := run_free_calls alloc_expr_key_sw free_calls_key_sw_ni.
 Definition x_aesctr_free := run_free_calls alloc_expr_ctr free_calls_ctr.
